@@ -96,6 +96,7 @@ class Program:
         pkg_dir = os.path.join(self.repo_root, self.package)
         if not os.path.isdir(pkg_dir):
             raise AnalysisError(f"package directory {pkg_dir} not found")
+        pending = []
         for dirpath, dirnames, filenames in os.walk(pkg_dir):
             dirnames[:] = sorted(d for d in dirnames if d != "__pycache__")
             for fn in sorted(filenames):
@@ -117,7 +118,12 @@ class Program:
                     modname = modname[: -len(".__init__")]
                 mi = ModuleInfo(modname, path, rel, src, tree, digest=hashlib.sha256(raw).hexdigest()[:16])
                 self.modules[modname] = mi
-                self._index_module(mi, is_pkg=fn == "__init__.py")
+                pending.append((mi, fn == "__init__.py"))
+        # canonicalise refactoring-introduced helpers / unrolled loops away before any rule looks (normalize.py)
+        from gcmstatic.normalize import normalize_program
+        self.normalized = normalize_program({m.name: m.tree for m, _ in pending})
+        for mi, is_pkg in pending:
+            self._index_module(mi, is_pkg=is_pkg)
 
     def _index_module(self, mi: ModuleInfo, is_pkg: bool) -> None:
         # function-local imports count too (approximation: module-wide visibility)
